@@ -310,6 +310,26 @@ func c07(c *Ctx) {
 		}
 	}
 	R.Floor("C07.use.node", n, 4)
+	// the inbound path stores a peer's VAA only above the same threshold: the comparison is
+	// `CalculateQuorum(len(p.gs.Keys)) <= len(v.Signatures)` — not some other arithmetic on the counts
+	a7 := c.processor()
+	nin := 0
+	for _, s := range callsTo(p, a7.store) {
+		if s.Fn != a7.hInbound {
+			continue
+		}
+		nin++
+		okQ := false
+		fs := facts.Atoms(facts.At(s.Instr, nil))
+		for _, at := range fs {
+			if strings.HasPrefix(at, "N/processor.CalculateQuorum(len(p.gs.Keys)) <= len(") && strings.HasSuffix(at, ".Signatures)") {
+				okQ = true
+			}
+		}
+		R.Check("C07.use", R.Key("C07.use", shortFn(s.Fn), "inbound-threshold"), c.sitePos(p, s), "a VAA received from a peer is stored only under the must-hold fact CalculateQuorum(len(p.gs.Keys)) <= len(v.Signatures)", okQ,
+			"the threshold applied to inbound VAAs is not CalculateQuorum of the guardian-set size: "+strings.Join(fs, "; "))
+	}
+	R.Floor("C07.use.inbound", nin, 1)
 	// no other quorum-like arithmetic: comparisons against len(x.Keys)*2/3 etc. are not searched (out of scope)
 	ep := c.Explorer()
 	ecq := must(ep.Func(pkgProcessor, "CalculateQuorum"), "pinned CalculateQuorum")
